@@ -822,6 +822,8 @@ class PyExec:
             key = "%s.%s" % (recv.cls[4:], meth)
         if key and key in self.callees:
             return self.apply_callee(st, self.callees[key], [recv] + self.args(st, n), n)
+        if key and key in self.opt.get("inline", ()):
+            return self.inline_call(st, key, [recv] + self.args(st, n), n)
         a = self.args(st, n)
         h = st.heap
         if isinstance(recv, PAny):
@@ -880,12 +882,40 @@ class PyExec:
             raise OutOfSubset("dict method %s" % meth)
         raise OutOfSubset("method %s on %s" % (meth, recv.kind))
 
+    def inline_call(self, st, qualname, args, n):
+        """execute the body of another function of the same module in place (real code, no contract needed);
+        only for callees whose paths merge back into one state"""
+        fn = find_function(self.tree, qualname)
+        if fn is None:
+            raise StaleContract("inlined callee %s not found" % qualname)
+        fa = fn.args
+        names = [a.arg for a in fa.posonlyargs + fa.args]
+        if len(names) != len(args) or fa.vararg or fa.kwarg:
+            raise OutOfSubset("inlined call to %s: argument shape" % qualname)
+        saved_vars, saved_ann = st.vars, self.ann
+        st.vars, self.ann = dict(zip(names, args)), {}
+        base = len(st.path)
+        outs = self.exec_block(st, fn.body)
+        self.ann = saved_ann
+        done = [(o[1], o[2] if o[0] == "return" else PNone()) for o in outs if o[0] in ("normal", "return")]
+        if len(done) != len(outs):
+            raise OutOfSubset("inlined callee %s raises / breaks" % qualname)
+        states = self.try_merge([d[0] for d in done])
+        if len(states) != 1:
+            raise OutOfSubset("inlined callee %s does not merge into one state" % qualname)
+        if len(done) > 1 and not all(isinstance(d[1], PNone) for d in done):
+            raise OutOfSubset("inlined callee %s returns different values on different paths" % qualname)
+        m = states[0]
+        st.path, st.heap, st.vars = m.path, m.heap, saved_vars
+        return done[0][1]
+
     def apply_callee(self, st, con, args, n):
         e = Env()
         for nm, a in zip(con.params, args):
             setattr(e, nm, arg_term(a))
-        if len(args) != len(con.params):
+        if len(args) > len(con.params):
             raise StaleContract("call to %s with %d args, contract has %d" % (con.name, len(args), len(con.params)))
+        # fewer arguments: trailing parameters take their defaults (absent from e)
         h0 = st.heap.copy()
         e.h0 = e.h = h0
         for label, f in con.requires:
